@@ -27,7 +27,8 @@ META = {
              ' container variants (ASCII / Base64 / GZip, row / column maj'
              'or, little / big endian), labels over the whole uint64 range'
              '; reader_big: more than a million triangles with one out-of-'
-             'range index at the head / middle / tail / end.'),
+             'range index at the head / middle / tail / end.'
+             " Round 12: GIfTI point sets stored as INT32 / UINT8 (coordinates of several metres)."),
     "trusted_base": ["vlib/refs/mesh_spec.py (struct-based, from the format "
                      "text)", "vlib/refs/vtk_grammar.py (from memory of "
                      "neuroglancer's vtk/parse.ts)", "nibabel GIFTI writer"],
@@ -436,7 +437,14 @@ def convert_cases(draw):
                                           "GIFTI_ENCODING_B64BIN",
                                           "GIFTI_ENCODING_ASCII"])),
                     draw(st.sampled_from(["C", "C", "F"])),
-                    draw(st.sampled_from(["little", "little", "big"]))]}
+                    draw(st.sampled_from(["little", "little", "big"]))],
+            # stored type of the point set - the three types the GIfTI
+            # standard allows (integer types hold whole
+            # millimetres - or a coarser unit folded into the transform -
+            # scaled so that coordinates of several metres occur)
+            "point_type": draw(st.sampled_from(
+                ["FLOAT32", "FLOAT32", "INT32", "INT32", "UINT8"])),
+            "point_scale": draw(st.sampled_from([1, 40, 1000]))}
 
 
 def check_convert(ctx, case):
@@ -445,11 +453,19 @@ def check_convert(ctx, case):
     d = ctx.tmpdir("mesh")
     try:
         v, t = arrays(case["mesh"], "float32", "int32")
+        ptype = case.get("point_type", "FLOAT32")
+        if ptype != "FLOAT32":
+            pdt = np.dtype(ptype.lower())
+            if pdt.kind in "iu":
+                ii = np.iinfo(pdt)
+                v = np.clip(np.round(v.astype(float) * case["point_scale"]),
+                            ii.min, ii.max)
+            v = v.astype(pdt)
         genc, gorder, gendian = case.get("gii") or [
             "GIFTI_ENCODING_B64GZ", "C", "little"]
         gi = nib.gifti.GiftiImage(darrays=[
             nib.gifti.GiftiDataArray(v, intent="NIFTI_INTENT_POINTSET",
-                                     datatype="NIFTI_TYPE_FLOAT32",
+                                     datatype="NIFTI_TYPE_" + ptype,
                                      encoding=genc, ordering=gorder,
                                      endian=gendian),
             nib.gifti.GiftiDataArray(t, intent="NIFTI_INTENT_TRIANGLE",
@@ -567,7 +583,8 @@ def run_convert(ctx, n):
                    ["cli" if case["cli"] else "api",
                     "transform" if case["affine"] else "identity",
                     "gzip" if case["gzip"] else "plain",
-                    "gii." + "/".join(case.get("gii") or ["default"])])
+                    "gii." + "/".join(case.get("gii") or ["default"]),
+                    "points." + case.get("point_type", "FLOAT32")])
     ctx.run_hypothesis(convert_cases(), check, n)
 
 
